@@ -1,9 +1,11 @@
-\* every interleaving at lock granularity (state form of C18)
+\* free mode: every interleaving at lock granularity, state form of C18 (thorough tier)
+\* (the check generates its cfgs from families/transactions.py:TIERS; this file mirrors one of them for manual runs:
+\*  tlc -deadlock -config MC_Transactions_free.cfg Transactions)
 CONSTANTS
   Kinds = {"base", "retry", "timed"}
-  RCs = {0,1,2}
-  RDs = {1,2}
-  TOs = {0,1,2}
+  RCs = {0, 1, 2}
+  RDs = {1, 2}
+  TOs = {0, 1, 2}
   MaxOps = 3
   CbMayFail = TRUE
   Devs = {}
